@@ -45,6 +45,8 @@ def NSM_Local(M: "NamespaceManager") -> "bool":
         and "xsd" in M and same(M["xsd"], XSD)
         and "xsi" in M and same(M["xsi"], XSI)
         and implies(M._default is not None, M._default.prefix == "" and NsOK(M._default))
+        # the default namespace is bound under the empty prefix (so that full URIs in it can be compacted: C18)
+        and (("" in M) == (M._default is not None))
         and implies("" in M, M._default is not None and same(M[""], M._default))
     )
 
